@@ -20,8 +20,8 @@ from vlib import core, cy, diff
 PLUGIN = 'vlib.mon.c12_lzss'
 SAN_CFLAGS = ['-g', '-fsanitize=address,undefined', '-fno-omit-frame-pointer', '-fno-sanitize-recover=all']
 REAL_FILES_QUICK = ['Utils.py', 'StringIOTree.py', 'Compiler/Errors.py', 'Compiler/Options.py', 'Compiler/Lexicon.py',
-                    'Compiler/TreePath.py', 'Plex/Machines.py', 'Compiler/StringEncoding.py']
-REAL_FILES_THOROUGH = REAL_FILES_QUICK + ['Compiler/Scanning.py', 'Compiler/Builtin.py', 'Compiler/Pipeline.py',
+                    'Compiler/TreePath.py']
+REAL_FILES_THOROUGH = REAL_FILES_QUICK + ['Plex/Machines.py', 'Compiler/StringEncoding.py', 'Compiler/Scanning.py', 'Compiler/Builtin.py', 'Compiler/Pipeline.py',
                                           'Compiler/PyrexTypes.py', 'Compiler/Symtab.py', 'Compiler/Code.py',
                                           'Build/Dependencies.py', 'Compiler/FlowControl.py', 'Compiler/Parsing.py',
                                           'Compiler/TypeSlots.py', 'Compiler/Optimize.py', 'Compiler/Buffer.py']
@@ -42,6 +42,25 @@ def san_env(logdir):
             'UBSAN_OPTIONS': 'print_stacktrace=1:halt_on_error=1:log_path=%s' % os.path.join(logdir, 'ubsan')}
 
 
+def parse_san_text(t):
+    """(kind, function) of one ASan/UBSan report text"""
+    m = re.search(r'ERROR: AddressSanitizer: ([\w-]+)', t)
+    kind = m.group(1) if m else None
+    acc = re.search(r'\b(READ|WRITE) of size', t)
+    if kind and acc:
+        kind += ':' + acc.group(1)
+    if not kind:
+        m = re.search(r'runtime error: ([^\n]*)', t)
+        kind = 'ubsan:' + re.sub(r'[-+]?\d+', 'N', m.group(1))[:60].strip().replace(' ', '-') if m else 'unknown'
+    fm = re.search(r'#\d+ 0x[0-9a-f]+ in (\w+)', t)
+    fn = fm.group(1) if fm else '?'
+    for m2 in re.finditer(r'#\d+ 0x[0-9a-f]+ in (\w+)', t):
+        if m2.group(1).startswith(('__pyx', '__Pyx', 'c12_')):
+            fn = m2.group(1)
+            break
+    return kind, fn
+
+
 def read_san_logs(logdir):
     """[(kind, function, text)] from ASan/UBSan log files; files are removed after reading"""
     out = []
@@ -51,20 +70,7 @@ def read_san_logs(logdir):
         except OSError:
             continue
         os.unlink(p)
-        m = re.search(r'ERROR: AddressSanitizer: ([\w-]+)', t)
-        kind = m.group(1) if m else None
-        acc = re.search(r'\b(READ|WRITE) of size', t)
-        if kind and acc:
-            kind += ':' + acc.group(1)
-        if not kind:
-            m = re.search(r'runtime error: ([^\n]*)', t)
-            kind = 'ubsan:' + re.sub(r'[-+]?\d+', 'N', m.group(1))[:60].strip().replace(' ', '-') if m else 'unknown'
-        fm = re.search(r'#\d+ 0x[0-9a-f]+ in (\w+)', t)
-        fn = fm.group(1) if fm else '?'
-        for m2 in re.finditer(r'#\d+ 0x[0-9a-f]+ in (\w+)', t):
-            if m2.group(1).startswith(('__pyx', '__Pyx', 'c12_')):
-                fn = m2.group(1)
-                break
+        kind, fn = parse_san_text(t)
         out.append((kind, fn, t[:3000]))
     return out
 
@@ -89,27 +95,27 @@ def build_harness(ck, tree):
     return hd, text
 
 
-def run_workers(ck, tree, hd, files, nchunks, explicit_hex=(), tier=None):
-    """Run the round-trip workers. Returns (summaries, problems, sanitizer_reports, fatals)."""
-    wd = tree.subdir('rt')
-    logdir = tree.subdir('sanlogs')
+def run_workers(ck, tree, hd, files, nchunks, explicit_hex=(), tier=None, tag='rt'):
+    """Run the round-trip workers (compressor + reference decoder in a plain process, the C decompressor in a
+    sanitizer child of it). Returns (summaries, problem records, fatals)."""
+    wd = tree.subdir(tag)
 
     def one(ch):
         out = os.path.join(wd, 'out_%d.jsonl' % ch)
         prog = os.path.join(wd, 'prog_%d' % ch)
         sf = os.path.join(wd, 'spec_%d.json' % ch)
-        mylog = tree.subdir('sanlogs/%d' % ch)
+        mylog = tree.subdir('sanlogs_%s/%d' % (tag, ch))
         start = [0, 0]
-        summaries, problems, reports, fatals = [], [], [], []
-        for _attempt in range(12):
+        summaries, problems, fatals = [], [], []
+        for _attempt in range(6):
             for p in (out, prog):
                 if os.path.exists(p):
                     os.unlink(p)
             core.write_json(sf, {'mirror': tree.mirror, 'harness_dir': hd, 'seed': ck.seed, 'tier': tier or ck.tier,
                                  'chunk': ch, 'nchunks': nchunks, 'start': start, 'out': out, 'progress': prog,
-                                 'files': list(files), 'explicit_hex': list(explicit_hex)})
-            r = core.run([core.PY, '-m', 'props.C12_worker', 'run', sf], env=tree.env(extra=san_env(mylog)),
-                         timeout=ck.pick(600, 3000), as_gb=0)
+                                 'files': list(files), 'explicit_hex': list(explicit_hex), 'san_env': san_env(mylog),
+                                 'san_logdir': mylog})
+            r = core.run([core.PY, '-m', 'props.C12_worker', 'run', sf], env=tree.env(), timeout=ck.pick(900, 3600), as_gb=0)
             done = False
             if os.path.exists(out):
                 for ln in open(out).read().splitlines():
@@ -124,57 +130,31 @@ def run_workers(ck, tree, hd, files, nchunks, explicit_hex=(), tier=None):
                         fatals.append(rec['fatal'])
                     else:
                         problems.append(rec)
-            logs = read_san_logs(mylog)
-            if done and r.rc == 0:
-                for kind, fn, t in logs:
-                    reports.append({'kind': kind, 'function': fn, 'log': t, 'at': None})
+            if (done and r.rc == 0) or fatals:
                 break
+            # the plain (non-sanitizer) parent died or was too slow: not an observation of the property; resume
             at = None
             if os.path.exists(prog):
                 try:
                     at = [int(x) for x in open(prog).read().split()]
                 except ValueError:
                     at = None
-            if not at or len(at) != 2:
+            if not at or len(at) != 2 or not r.timed_out:
                 fatals.append('worker %d died rc=%s timed_out=%s: %s' % (ch, r.rc, r.timed_out, (r.err or '')[-600:]))
                 break
-            if logs:
-                for kind, fn, t in logs:
-                    reports.append({'kind': kind, 'function': fn, 'log': t, 'at': at})
-            else:
-                reports.append({'kind': 'HANG' if r.timed_out else 'crash-rc%s' % r.rc, 'function': '?',
-                                'log': (r.err or '')[-2000:], 'at': at})
-            start = [at[0], at[1] + 1]
+            start = at
         else:
-            fatals.append('worker %d: too many sanitizer aborts' % ch)
-        return summaries, problems, reports, fatals
+            fatals.append('worker %d: did not finish within the time budget (machine overloaded?)' % ch)
+        return summaries, problems, fatals
 
     with ThreadPoolExecutor(nchunks) as ex:
         res = list(ex.map(one, range(nchunks)))
-    S, P, R, F = [], [], [], []
-    for a, b, c, d in res:
+    S, P, F = [], [], []
+    for a, b, c in res:
         S += a
         P += b
-        R += c
-        F += d
-    return S, P, R, F
-
-
-def describe_at(ck, at, files, tier=None):
-    """descriptor (and small data) of the case in flight when a worker aborted"""
-    from props import C12_worker as W
-    descs = W.descriptors(ck.seed, tier or ck.tier) + [('file', p) for p in files]
-    if at is None or at[0] >= len(descs):
-        return None, None
-    d = descs[at[0]]
-    try:
-        if d[0] == 'file':
-            data = open(d[1], 'rb').read()
-        else:
-            data = W.materialise(d, ck.seed)[at[1]]
-    except Exception:
-        data = None
-    return d, data
+        F += c
+    return S, P, F
 
 
 # ------------------------------------------------------------------------------------------------ end to end
@@ -195,7 +175,7 @@ def e2e_module(rng, idx):
 
 
 def end_to_end(ck, tree, files_dir):
-    n = ck.pick(3, 16)
+    n = ck.pick(2, 16)
     rng = ck.rng('e2e')
     srcs = {'c12e%d' % i: e2e_module(rng, i) for i in range(n)}
     d, info = tree.build_sources(srcs, subdir='e2e', ext='.py', cflags=SAN_CFLAGS, opt='-O1', plugins=[PLUGIN],
@@ -232,12 +212,8 @@ def end_to_end(ck, tree, files_dir):
     return stats
 
 
-def main(ck):
-    tree = cy.Tree('C12')
-    hd, section = build_harness(ck, tree)
-    if hd is None:
-        return ck.finish(0, 0, 'harness not built', [])
-    # ---- real string tables: compile real sources of the tree with the compressor contract installed
+def compiler_side(ck, tree):
+    """real compilations with the compressor contract installed + end-to-end modules; returns (files, mon, e2e)"""
     dump = tree.subdir('tables')
     real = ck.pick(REAL_FILES_QUICK, REAL_FILES_THOROUGH)
     cdir = tree.subdir('real')
@@ -268,12 +244,29 @@ def main(ck):
         st = p.get(PLUGIN) or {}
         mon['evals'] += st.get('evals', 0)
         mon['bytes'] += st.get('bytes', 0)
+    return files, mon, e2e
+
+
+def main(ck):
+    tree = cy.Tree('C12')
+    phase = {}
+    hd, section = build_harness(ck, tree)
+    phase['harness'] = round(ck.elapsed(), 1)
+    if hd is None:
+        return ck.finish(0, 0, 'harness not built', [])
+    with ThreadPoolExecutor(1) as ex:
+        fut = ex.submit(compiler_side, ck, tree)     # runs while the synthetic strings are round-tripped
+        S, P, F = run_workers(ck, tree, hd, [], ck.pick(8, core.NCPU))
+        phase['roundtrip_workers'] = round(ck.elapsed(), 1)
+        files, mon, e2e = fut.result()
+        phase['compiler_side'] = round(ck.elapsed(), 1)
     ck.inconclusive_if(mon['evals'] == 0, 'compressor contract never evaluated during real compilations')
     ck.inconclusive_if(not files, 'no real string table was captured')
     ck.inconclusive_if(e2e['with_lzss_call'] == 0, 'no end-to-end module used the LZSS string table')
-
-    # ---- generated strings through compressor -> C decompressor / reference decoder
-    S, P, R, F = run_workers(ck, tree, hd, files, ck.pick(8, core.NCPU))
+    # the real string tables through the C decompressor
+    S2, P2, F2 = run_workers(ck, tree, hd, files, max(1, min(4, len(files))), tier='replay', tag='rt_tables')
+    phase['real_tables'] = round(ck.elapsed(), 1)
+    S, P, F = S + S2, P + P2, F + F2
     for f in F:
         ck.inconclusive_if(True, str(f)[-400:])
     tot = {'cases': 0, 'bytes_in': 0, 'bytes_out': 0, 'stats': {}, 'by_kind': {}, 'distinct_with_backref': 0, 'maxsize': 0}
@@ -286,21 +279,24 @@ def main(ck):
             for k, v in s[hk].items():
                 tot[hk][k] = tot[hk].get(k, 0) + v
         samples += s['samples'][:1]
+    n_reports = 0
     for p in P:
+        wit = {'kind': 'roundtrip', 'descriptor': p['desc'], 'sub': p['sub'], 'n': p['n'], 'data_hex': p['data_hex'],
+               'compressed_hex': p['comp_hex'], 'expected': 'output == input, consumed == len(compressed), no sanitizer report'}
         for key, txt in p['problem']:
-            ck.discrepancy(key, '%s (descriptor %r, %d bytes)' % (txt, p['desc'], p['n']),
-                           {'kind': 'roundtrip', 'descriptor': p['desc'], 'sub': p['sub'], 'n': p['n'], 'data_hex': p['data_hex'],
-                            'compressed_hex': p['comp_hex'], 'expected': 'output == input and consumed == len(compressed)',
-                            'observed': txt})
-    for r in R:
-        d, data = describe_at(ck, r['at'], files)
-        empty = data is not None and len(data) == 0
-        key = 'sanitizer:%s:%s%s' % (r['kind'], r['function'], ':empty-input' if empty else '')
-        ck.discrepancy(key, 'sanitizer report in %s (%s) while decompressing descriptor %r' % (r['function'], r['kind'], d),
-                       {'kind': 'roundtrip', 'descriptor': list(d) if d else None, 'sub': r['at'][1] if r['at'] else None,
-                        'n': len(data) if data is not None else None,
-                        'data_hex': data.hex() if data is not None and len(data) <= 70000 else None, 'log': r['log'],
-                        'expected': 'no ASan/UBSan report', 'observed': r['kind']})
+            if key == 'ABORT':
+                n_reports += 1
+                logs = p.get('logs') or []
+                if logs:
+                    kind, fn = parse_san_text(logs[0])
+                elif p['abort'].get('hang'):
+                    kind, fn = 'hang', '__pyx_lzss_decompress'
+                else:
+                    kind, fn = 'crash-rc%s' % p['abort'].get('died'), '?'
+                key = 'sanitizer:%s:%s%s' % (kind, fn, ':empty-input' if p['n'] == 0 else '')
+                txt = 'sanitizer child aborted in %s (%s)' % (fn, kind)
+                wit = dict(wit, log=(logs[0] if logs else None))
+            ck.discrepancy(key, '%s (descriptor %r, %d bytes)' % (txt, p['desc'], p['n']), dict(wit, observed=txt))
     st = tot['stats']
     for form in ('A', 'B', 'C', 'literal'):
         ck.inconclusive_if(st.get(form, 0) < 100, 'encoding %s observed only %d times (< 100)' % (form, st.get(form, 0)))
@@ -319,8 +315,8 @@ def main(ck):
         samples[:4],
         extra={'strings': tot['cases'], 'bytes_in': tot['bytes_in'], 'bytes_compressed': tot['bytes_out'], 'largest_input': tot['maxsize'],
                'token_statistics': st, 'by_generator': tot['by_kind'], 'real_string_tables': len(files),
-               'real_compilation_contract': mon, 'end_to_end': e2e, 'sanitizer_reports': len(R),
-               'decompressor_section_bytes': len(section), 'sanitizer_flags': SAN_CFLAGS},
+               'real_compilation_contract': mon, 'end_to_end': e2e, 'sanitizer_reports': n_reports,
+               'decompressor_section_bytes': len(section), 'phase_end_s': phase, 'sanitizer_flags': SAN_CFLAGS},
         assumptions=['gcc 12 ASan/UBSan red zones detect accesses outside the exact-size malloc blocks',
                      'the reference decoder in vlib/ref/lzss_ref.py is written from the format description and trusted',
                      'CPython 3.12.1 executing the same source is the reference of the end-to-end modules'])
@@ -339,13 +335,12 @@ def replay(ck, data):
     if not w.get('data_hex') and w.get('n') != 0:
         print('witness has no inline data (large input); descriptor:', w.get('descriptor'))
         return 2
-    S, P, R, F = run_workers(ck, tree, hd, [], 1, explicit_hex=[w.get('data_hex') or ''], tier='replay')
+    S, P, F = run_workers(ck, tree, hd, [], 1, explicit_hex=[w.get('data_hex') or ''], tier='replay')
     for p in P:
         print('problem', p['problem'])
-    for r in R:
-        print('sanitizer', r['kind'], r['function'])
-        print(r['log'][:1500])
-    if P or R:
+        for t in p.get('logs') or []:
+            print(t[:1500])
+    if P:
         print('VIOLATION property=%s replay=<replayed>' % ck.pid)
         return 1
     print('replay: round trip now exact (%s)' % (F or 'ok'))
